@@ -18,8 +18,10 @@ package refmoney
 
 import (
 	"errors"
+
 	"fmt"
 	"math/big"
+	"verif/internal/refcodec"
 )
 
 // P2PKHUnlockLen is the length of the placeholder unlocking script assumed for
@@ -115,13 +117,14 @@ func (t *Tx) size(estimate bool) Size {
 func (t *Tx) Size() Size { return t.size(false) }
 
 // CheckSpent reports why the final size cannot be estimated (nil when it can):
-// every input must carry a P2PKH spent script.
+// every input must carry a P2PKH or P2PKH-inscription spent script (both are
+// unlocked by <signature> <public key>, the 107-byte placeholder).
 func (t *Tx) CheckSpent() error {
 	for i := range t.Ins {
 		if t.Ins[i].PrevNil {
 			return fmt.Errorf("%w (input %d)", ErrPrevMissing, i)
 		}
-		if !IsP2PKH(t.Ins[i].PrevScript) {
+		if !IsP2PKH(t.Ins[i].PrevScript) && !refcodec.IsP2PKHInscription(t.Ins[i].PrevScript) {
 			return fmt.Errorf("%w (input %d)", ErrPrevUnsupported, i)
 		}
 	}
